@@ -23,6 +23,7 @@
 #include <gudhi/Matrix.h>
 #include <gudhi/persistence_matrix_options.h>
 
+#include <array>
 #include <functional>
 #include <memory>
 
@@ -289,6 +290,7 @@ struct Exec {
   Bars cmp_bars;                 // reference barcode of the order before the running operation (for the comparators)
   std::vector<int> cmp_order;
   std::string fam = C::family();
+  int key_level = 1;             // 0 semantic, 1 + summaries of lazy/permutation state, 2 every container verbatim
   std::string last = "start";    // kind of the last operation (part of the class strings)
   bool dead = false;             // an exception escaped the library: the object is not used any further
 
@@ -781,13 +783,165 @@ struct Exec {
     d.s(']');
   }
 
+  // ---- abstract key: semantic content + coarse summaries of the lazy / permutation state ------------------------------
+  // (which histories are executed depends on the key, what is reported does not: every executed transition is
+  //  compared with the oracle whatever the key)
+  template <class Mat>
+  void abs_basic(Dump& d, const Mat& B) {
+    auto pub = [&](long real) -> long {   // real row -> public row index
+      if constexpr (MAP) { auto it = B.rowToIndex_.find((unsigned int)real); return it == B.rowToIndex_.end() ? -7 : (long)it->second; }
+      else return real < (long)B.rowToIndex_.size() ? (long)B.rowToIndex_[real] : real;
+    };
+    d.s('[');
+    long cols = 0;
+    for_sorted(B.matrix_, [&](long k, const auto& col) {
+      ++cols;
+      std::vector<long> r;
+      for (long x : rows_of(col)) r.push_back(pub(x));
+      std::sort(r.begin(), r.end());
+      if (r.empty() && k >= (long)B.nextInsertIndex_) return;   // cleared slot of a vector container
+      d.P(k); d.s(':');
+      for (long x : r) d.I(x);
+      d.s(';');
+    });
+    d.s('n'); d.P(B.nextInsertIndex_);
+    if (key_level >= 1) {   // summary of the lazy row permutation: pending flag, anything actually permuted
+      long moved = 0;
+      for_sorted(B.indexToRow_, [&](long k, long v) { if (k != v) ++moved; });
+      for_sorted(B.rowToIndex_, [&](long k, long v) { if (k != v) ++moved; });
+      d.s('r'); d.P(B.rowSwapped_); d.P(moved > 0);
+    }
+    (void)cols;
+    d.s(']');
+  }
+  template <class BarCont, class Dict>
+  void abs_bars(Dump& d, const BarCont& bc, const Dict& dict) {
+    std::vector<std::array<long, 3>> v;
+    for (auto& b : bc) v.push_back({(long)b.dim, b.birth == NUL ? -1 : (long)b.birth, b.death == NUL ? -1 : (long)b.death});
+    long displaced = 0;
+    auto sorted = v;
+    std::sort(sorted.begin(), sorted.end());
+    for (size_t i = 0; i < v.size(); ++i) if (v[i] != sorted[i]) ++displaced;
+    d.s('B');
+    for (auto& b : sorted) { d.P(b[0]); d.P(b[1]); d.P(b[2]); d.s(';'); }
+    if (key_level >= 1) d.P(displaced > 0);
+    // the dictionary must send every position to the bar that contains it
+    long wrong = 0, entries = 0;
+    if constexpr (std::is_same_v<Dict, std::vector<Index>>) {
+      for (size_t i = 0; i < dict.size(); ++i) {
+        ++entries;
+        if (dict[i] >= v.size() || (v[dict[i]][1] != (long)i && v[dict[i]][2] != (long)i)) ++wrong;
+      }
+    } else {
+      for (auto& kv : dict) {
+        ++entries;
+        long b = kv.second->birth == NUL ? -1 : (long)kv.second->birth, e = kv.second->death == NUL ? -1 : (long)kv.second->death;
+        if (b != (long)kv.first && e != (long)kv.first) ++wrong;
+      }
+    }
+    d.s('b'); d.P(entries); d.P(wrong);
+  }
+  std::string key_abs() {
+    Dump d;
+    if (dead) return "DEAD";
+    d.s('O');
+    for (int c : md.order) d.P(c);
+    d.s('c');
+    if (!RU || IDX == IDEN) for (int c : md.order) d.I(md.cid[c]);
+    d.s('r');
+    for (long r : md.rid) d.I(r);
+    d.s('x');
+    d.P(md.removed && !explicit_ids && RU && IDX == IDEN);
+    auto& co = core();
+    const int N = n();
+    if constexpr (RU) {
+      abs_basic(d, co.reducedMatrixR_);
+      abs_basic(d, co.mirrorMatrixU_);
+      d.s('p');
+      for_sorted(co.pivotToColumnIndex_, [&](long k, long v) { if (v != (long)NUL) { d.I(k); d.P(v); } });
+      d.s('e'); d.P(co.nextEventIndex_);
+      d.s('q');
+      {
+        std::vector<std::pair<long, long>> v;
+        for (auto& kv : co._positionToRowIdx()) v.push_back({(long)kv.first, (long)kv.second});
+        std::sort(v.begin(), v.end());
+        for (auto& x : v) { d.P(x.first); d.I(x.second); }
+      }
+      if constexpr (BAR) {
+        abs_bars(d, co.barcode_, co.indexToBar_);
+        d.s('t');
+        std::vector<std::pair<long, long>> v;
+        for (auto& kv : co.idToPosition_) v.push_back({(long)kv.first, (long)kv.second});
+        std::sort(v.begin(), v.end());
+        for (auto& x : v) { d.I(x.first); d.P(x.second); }
+      }
+      d.s('D'); d.P(co.reducedMatrixR_.maxDim_);
+      for (auto x : co.reducedMatrixR_.dimensions_) d.P(x);
+      if constexpr (IDX == IDEN) {
+        d.s('o'); d.P(m->matrix_.nextIndex_);
+        for_sorted(*m->matrix_.idToIndex_, [&](long k, long v) { if (v != (long)NUL) { d.I(k); d.P(v); } });
+      }
+    } else {
+      // chains, pivots and pairing expressed in positions; which container slot holds which chain is summarised
+      std::vector<long> mat(N, -1);
+      auto slot_of = [&](long id) -> long {
+        if constexpr (MAP) { auto it = co.pivotToColumnIndex_.find((unsigned int)id); return it == co.pivotToColumnIndex_.end() ? -1 : (long)it->second; }
+        else return id < (long)co.pivotToColumnIndex_.size() ? (long)co.pivotToColumnIndex_[id] : -1;
+      };
+      auto has_slot = [&](long sidx) {
+        if constexpr (MAP) return co.matrix_.find((unsigned int)sidx) != co.matrix_.end();
+        else return sidx >= 0 && sidx < (long)co.matrix_.size();
+      };
+      auto pos_of_id = [&](long id) -> long { int c = md.cell_with_cid(id); return c < 0 ? -5 : md.pos_of(c); };
+      d.s('[');
+      for (int p = 0; p < N; ++p) {
+        long id = md.cid[md.order[p]];
+        mat[p] = slot_of(id);
+        if (mat[p] == (long)NUL || !has_slot(mat[p])) { d.s('?'); d.s(';'); continue; }
+        auto& col = co.get_column((Index)mat[p]);
+        std::vector<long> r;
+        for (long x : rows_of(col)) r.push_back(pos_of_id(x));
+        std::sort(r.begin(), r.end());
+        for (long x : r) d.P(x);
+        d.s('/'); d.P(pos_of_id(col.get_pivot()));
+        long pc = col.get_paired_chain_index(), pp = -1;
+        if (pc != (long)NUL) pp = has_slot(pc) ? pos_of_id(co.get_column((Index)pc).get_pivot()) : -6;
+        d.P(pp); d.P(col.get_dimension());
+        d.s(';');
+      }
+      d.s(']');
+      long slots = 0, entries = 0, inversions = 0;
+      for_sorted(co.matrix_, [&](long, const auto&) { ++slots; });
+      for_sorted(co.pivotToColumnIndex_, [&](long, long v) { if (v != (long)NUL) ++entries; });
+      for (int p = 0; p < N; ++p) for (int q = p + 1; q < N; ++q) if (mat[p] > mat[q]) ++inversions;
+      d.s('s'); d.P(slots); d.P(entries);
+      if (key_level >= 1) d.P(inversions > 0);
+      if constexpr (BAR) {
+        abs_bars(d, co.barcode_, co.indexToBar_);
+        d.s('P'); d.P(co.nextPosition_);
+        long wrong = 0, cnt = 0;
+        for_sorted(co.pivotToPosition_, [&](long k, long v) { if (v != (long)NUL) { ++cnt; if (pos_of_id(k) != v) ++wrong; } });
+        d.P(cnt); d.P(wrong);
+      }
+      d.s('D'); d.P(co.maxDim_);
+      if constexpr (MAP) for (auto x : co.dimensions_) d.P(x);
+      if constexpr (IDX == POSI) {
+        d.s('o'); d.P(m->matrix_.nextPosition_);
+        long wrong = 0;
+        for (int p = 0; p < N && p < (int)m->matrix_.positionToIndex_.size(); ++p) if ((long)m->matrix_.positionToIndex_[p] != mat[p]) ++wrong;
+        d.P(wrong);
+      }
+    }
+    return d.str(true, true);
+  }
+
   std::string key() {
     Dump d;
     if (dead) return "DEAD";
     d.s('O');
     for (int c : md.order) d.P(c);
     d.s('c');
-    for (int c : md.order) d.I(md.cid[c]);
+    if (!RU || IDX == IDEN) for (int c : md.order) d.I(md.cid[c]);
     d.s('r');
     for (long r : md.rid) d.I(r);
     d.s('x');
@@ -858,6 +1012,8 @@ struct Driver {
   Universe U;
   bool explicit_ids = false;
   int max_cells = 100;
+  int key_level = 1;            // --key semantic|summary|full
+  bool probe_crashes = false;   // --probe 1: find process-killing transitions in forked probes and explore past them
 
   std::string describe(const std::vector<int>& hist) const {
     std::ostringstream o;
@@ -898,6 +1054,7 @@ struct Driver {
       }
     }
     g_silent = false;
+    if (!probe_crashes) return r;
     // transitions that kill the process (sanitizer report, signal, hang) are found in a forked probe, reported from
     // here, and not handed to the explorer
     std::vector<std::string> errs;
@@ -924,7 +1081,9 @@ struct Driver {
     long before = g_bad;
     Exec<C> e(U, explicit_ids);
     for (size_t i = 0; i < hist.size(); ++i) e.apply(hist[i], i + 1 == hist.size());
-    std::string k = e.key();          // before any read through the public interface
+    e.key_level = key_level;
+    std::string k = key_level >= 2 ? e.key() : e.key_abs();   // before any read through the public interface
+    if (getenv("C06_DUMPKEYS")) fprintf(stderr, "KEY %s\n", k.c_str());
     e.observe();
     vf::stats().add("observations");
     if (!hist.empty()) vf::stats().add(std::string("op.") + op_name[kind_of(hist.back())]);
@@ -942,6 +1101,11 @@ int run_cfg(const vf::Args& a, double t0) {
   std::string uni = a.get("uni", "tri");
   d.explicit_ids = a.get("ids", "default") == "explicit";
   d.max_cells = (int)a.geti("maxcells", 100);
+  d.probe_crashes = a.geti("probe", 0) != 0;
+  {
+    std::string kl = a.get("key", "summary");
+    d.key_level = kl == "semantic" ? 0 : (kl == "full" ? 2 : 1);
+  }
   if (!a.replay.empty()) {
     auto kv = vf::parse_kv(a.replay);
     if (kv["cfg"] != C::name()) return -1;
@@ -951,11 +1115,13 @@ int run_cfg(const vf::Args& a, double t0) {
     for (size_t n = 0; n <= h.size(); ++n) {   // every prefix: the first step that goes wrong is shown
       std::vector<int> p(h.begin(), h.begin() + n);
       vf::set_case(d.describe(p));
-      std::vector<std::string> errs;
-      std::string res = probe(1, [&](size_t) { d.run_quiet(p); }, errs);
-      if (res != "k") {
-        vf::mismatch(d.crash_class(p.empty() ? 0 : p.back()), C::name() + " " + (errs.empty() ? std::string("process died") : errs[0]));
-        break;
+      if (d.probe_crashes) {
+        std::vector<std::string> errs;
+        std::string res = probe(1, [&](size_t) { d.run_quiet(p); }, errs);
+        if (res != "k") {
+          vf::mismatch(d.crash_class(p.empty() ? 0 : p.back()), C::name() + " " + (errs.empty() ? std::string("process died") : errs[0]));
+          break;
+        }
       }
       long before = g_bad;
       d.run(p);
